@@ -110,7 +110,7 @@ def make_additional_types():
         EnumType("Color", list(ENUM_VALUES)),
         ScalarType(
             "Stamp",
-            serialize=lambda v: None if v % 13 == 0 else "S:%d" % v,
+            serialize=lambda v: None if v % 13 == 0 else "S:%r" % (v,),
             parse=_stamp_parse,
         ),
     ]
